@@ -433,18 +433,30 @@ theorem replaceChars_plain (s : Str) (h : ∀ c ∈ s, plainChar c = true) :
   have e5 : "\\t".toList = ['\\', 't'] := by decide
   rw [e1, e2, e3, e4, e5, p1, p2, p3, p4, p5]
 
-theorem lingoStrBody_plain (s rest : Str) (h : ∀ x ∈ s, x ≠ '"') : lingoStrBody (s ++ '"' :: rest) = some (s, rest) := by
-  induction s with
-  | nil => simp [lingoStrBody]
+theorem lrun_append (e : Option (List Str)) (m : LM) (a b : Str) : lrun e m (a ++ b) = lrun e (lrun e m a) b := by
+  simp [lrun, List.foldl_append]
+
+theorem lrun_cons (e : Option (List Str)) (m : LM) (c : Char) (r : Str) : lrun e m (c :: r) = lrun e (lstep e m c) r := rfl
+
+theorem lrun_nil (e : Option (List Str)) (m : LM) : lrun e m [] = m := rfl
+
+/-- inside a string literal Lingo reads every character other than the quote as itself -/
+theorem lrun_none_body (s : Str) (o : Str) (h : ∀ x ∈ s, x ≠ '"') : lrun none ⟨.S, o⟩ s = ⟨.S, o ++ s⟩ := by
+  induction s generalizing o with
+  | nil => simp [lrun]
   | cons c cs ih =>
     have hc : c ≠ '"' := h c (by simp)
-    simp only [List.cons_append, lingoStrBody, hc, if_false]
-    rw [ih (fun x hx => h x (by simp [hx]))]
-    rfl
+    rw [lrun_cons]
+    have : lstep none ⟨.S, o⟩ c = ⟨.S, o ++ [c]⟩ := by simp [lstep, hc]
+    rw [this, ih _ (fun x hx => h x (by simp [hx]))]
+    simp
 
 theorem evalLingoLit_quoted (s : Str) (h : ∀ x ∈ s, x ≠ '"') : evalLingoLit ('"' :: (s ++ ['"'])) = some s := by
-  simp only [evalLingoLit, List.length_cons, evalLingoAux, lingoTerm, lingoStrBody_plain s [] h]
-  simp
+  unfold evalLingoLit
+  rw [lrun_cons]
+  have h0 : lstep none linit '"' = ⟨.S, []⟩ := by simp [lstep, linit]
+  rw [h0, lrun_append, lrun_none_body s [] h]
+  simp [lrun, lstep, lfinal]
 
 theorem predefined_lookup_plain (s : Str) (h : ∀ c ∈ s, plainChar c = true) (hne : s ≠ []) :
     predefinedConstants.lookup ('"' :: (s ++ ['"'])) = none := by
